@@ -103,6 +103,12 @@ func TestTableSubjects(t *testing.T) {
 	for _, m := range []string{"GET", "POST"} {
 		allSeqs(httpAlpha, L, func(s []string) { inputs = append(inputs, input{"http", m, s}) })
 	}
+	// rids supplied by services: a reference value in a model, and the resource of a call response
+	allSeqs(wsAlpha, L, func(s []string) {
+		if len(s) > 0 {
+			inputs = append(inputs, input{"svcref", "subscribe", s}, input{"svcres", "call", s})
+		}
+	})
 	const batch = 400
 	for start := 0; start < len(inputs); start += batch {
 		end := start + batch
@@ -118,7 +124,35 @@ func TestTableSubjects(t *testing.T) {
 				in := inputs[i]
 				mark := len(w.Log())
 				var hsym string
-				if in.kind == "ws" {
+				if in.kind == "svcref" || in.kind == "svcres" {
+					rid := ""
+					for _, x := range in.s {
+						rid += wsSym[x]
+					}
+					// "{cid}" in a service-supplied rid is not a tag of this connection's request; keep it literal
+					name := "sv" + strconv.Itoa(i)
+					w.sim.res[name] = &SimRes{Kind: "m", M: map[string]Val{"k": {T: "r", V: rid}}}
+					frame := `{"id":` + strconv.Itoa(i) + `,"method":"subscribe.` + name + `"}`
+					if in.kind == "svcres" {
+						w.sim.res[name] = &SimRes{Kind: "m", M: map[string]Val{"k": {T: "p", V: "1"}}}
+						frame = `{"id":` + strconv.Itoa(i) + `,"method":"call.` + name + `.act"}`
+					}
+					w.Do(Step{Op: "raw", C: "c1", Raw: frame})
+					// answer by hand: the call gets the resource response
+					for j := 0; j < 8; j++ {
+						rs := w.mq.pendingReqs()
+						if len(rs) == 0 {
+							break
+						}
+						if rs[0].typ == "call" {
+							w.sim.reply(rs[0], "res", rid)
+						} else {
+							w.sim.reply(rs[0], "ok", "")
+						}
+						synctest.Wait()
+						w.drainFrames()
+					}
+				} else if in.kind == "ws" {
 					m := in.prefix + "."
 					for _, x := range in.s {
 						m += wsSym[x]
@@ -166,6 +200,9 @@ func TestTableSubjects(t *testing.T) {
 						if hsym != "" {
 							c = "\x00H\x00"
 						}
+						if strings.HasPrefix(name, "sv") && in.kind != "ws" && in.kind != "http" {
+							continue // the request's own resource
+						}
 						subs = append(subs, Rec{"t": typ, "n": symsOf(name, c), "m": symsOf(meth, c), "bad": r["bad"], "q": r["q"]})
 					case "msub":
 						if r["kind"] == "event" {
@@ -176,6 +213,9 @@ func TestTableSubjects(t *testing.T) {
 								c = "\x00H\x00"
 							}
 							n = strings.ReplaceAll(n, "c1", cid)
+							if strings.HasPrefix(n, "sv") && in.kind != "ws" && in.kind != "http" {
+								continue
+							}
 							msubs = append(msubs, Rec{"n": symsOf(n, c), "bad": r["bad"]})
 						}
 					case "cres":
